@@ -163,7 +163,7 @@ def script(rng, tx0, rx0, nq, word):
         def frame_for(c, f):
             if c == "o":
                 return other(f)
-            return {"a": f"A:0:0:{(f + 1) % 8}", "s": f"A:0:0:{f}", "n": f"N:0:0:{f}", "e": f"E:2:{rng.choice([2, 81, 0, 0, rng.randrange(256)])}",
+            return {"a": f"A:0:0:{(f + 1) % 8}", "s": f"A:0:0:{f}", "n": f"N:0:0:{f}", "e": f"E:2:{rng.choice([2, 81, 0, 0, rng.choice([c for c in range(256) if c != 11])])}",
                     "k": "K:2:11", "d": f"D:{r.p._rx_seq}:0:{(f + 1) % 8}:{rng.getrandbits(16):04x}"}[c]
 
         it = iter(word)
@@ -196,7 +196,7 @@ def script(rng, tx0, rx0, nq, word):
                     new_send()
                 r.do("T")
             elif ch == "e":
-                r.do(f"F=E:2:{rng.choice([2, 81, 0, 0, rng.randrange(256)])}")
+                r.do(f"F=E:2:{rng.choice([2, 81, 0, 0, rng.choice([c for c in range(256) if c != 11])])}")
             elif ch == "k":
                 r.do("F=K:2:11")
                 rxn = 0
